@@ -4,8 +4,8 @@
    theorems hold for every such function, requires-python theorems for every one that
    reads dotted digit strings as release versions. *)
 From Coq Require Import List String Ascii Bool NArith.
-From RC Require Import lib.Pep440 gen.ConstsC14 model.StrC14 model.FileNameC14 model.PyRequiresC14 model.IndexPageC14.
-From RC Require Import lib.Name proofs.StrC14P proofs.FileNameC14P proofs.NameC14P proofs.PyRequiresC14P proofs.IndexPageC14P.
+From RC Require Import lib.Pep440 gen.ConstsC14 model.StrC14 model.FileNameC14 model.PyRequiresC14 model.IndexPageC14 model.ResolveC14.
+From RC Require Import lib.Name proofs.StrC14P proofs.FileNameC14P proofs.NameC14P proofs.PyRequiresC14P proofs.IndexPageC14P proofs.ResolveC14P.
 Import ListNotations.
 Open Scope string_scope.
 
@@ -179,3 +179,31 @@ Theorem C14_findlinks_exact :
     exists f, In f listing /\ file_to_cand V pvf (path_join path f) = FCand c /\ l = path_join src f.
 Proof. exact findlinks_exact. Qed.
 Print Assumptions C14_findlinks_exact.
+
+(* ---- the file behind a pin, over histories that share one wheel directory ----
+   [digest] = sha256, [serve] = what the session delivers for a URL, a step = one resolve_candidate
+   call (file name, href, urljoin(page url, href)).  For an index that advertises only true digests
+   and a collision-free digest, whatever earlier resolutions left in the wheel directory: the bytes
+   whose metadata is read are the bytes served at the pin's URL, and the reported hash is the link's. *)
+Theorem C14_pin_file_is_link_file :
+  forall (B : Type) (digest : B -> string) (serve : string -> B) wd st,
+  do_download B digest serve wd st <> NoFile /\
+  (collision_free B digest -> honest B digest serve st ->
+   forall wd' b c, do_download B digest serve wd st = Used wd' b c ->
+   b = serve (r_url st) /\ wd_get B (r_file st) wd' = Some b).
+Proof.
+  intros B digest serve wd st.
+  exact (conj (download_never_lacks_file B digest serve wd st)
+              (fun Hc Hh wd' b c => download_uses_link_file B digest serve wd st wd' b c Hc Hh)).
+Qed.
+Print Assumptions C14_pin_file_is_link_file.
+
+Theorem C14_pin_history_files_are_link_files :
+  forall (B : Type) (digest : B -> string) (serve : string -> B) steps wd,
+  collision_free B digest -> Forall (honest B digest serve) steps ->
+  exists fin,
+    snd (resolve_seq B digest serve wd steps) = Some fin /\
+    map (fun p : pin B => (fst (fst p), snd (fst p))) (fst (resolve_seq B digest serve wd steps)) =
+    map (fun st => (serve (r_url st), hash_of_resource (r_res st))) steps.
+Proof. exact resolve_seq_uses_link_files. Qed.
+Print Assumptions C14_pin_history_files_are_link_files.
